@@ -84,7 +84,7 @@ func main() {
 	// a block the encoder accepts must survive its own serialisation
 	extreme := [][3]int{{1024, 16, 16}, {16, 1024, 16}, {16, 16, 1024}}
 	if !p.Quick() {
-		extreme = append(extreme, [3]int{1016, 16, 16}, [3]int{16, 1016, 24}, [3]int{24, 16, 1016}, [3]int{1024, 8, 8})
+		extreme = append(extreme, [3]int{1016, 16, 16}, [3]int{16, 1016, 24}, [3]int{24, 16, 1016}, [3]int{1024, 16, 24})
 	}
 	if p.Flavour != "" {
 		extreme = extreme[rot%3 : rot%3+1]
